@@ -97,14 +97,23 @@ func ruleCigarSplit(c *Ctx, r *Rep, tier string) {
 			return
 		}
 		piece, isK := constInt(sub.Y)
-		if !isK || piece < 1 {
+		switch {
+		case isK && piece < 1:
 			return
+		case !isK:
+			// a piece that is itself cut from the length – l := min(n, K); n -= l –
+			// is at most the length; what is left still has to be shown positive
+			// before the next operation is made (clause 2)
+			if !lenFlow[sub.Y] {
+				return
+			}
+			piece = 0
 		}
 		k++
 		r.Instance(rule, 1)
 		key := fmt.Sprintf("sam.ParseCigar#remainder~%d", k)
 		// (1) the piece is only taken off a length shown larger than it
-		if lb := bc.lowerBound(sub.X, sub.Block(), 0); lb >= piece+1 {
+		if lb := bc.lowerBound(sub.X, sub.Block(), 0); piece > 0 && lb >= piece+1 {
 			r.Pass(rule, key, c.Pos(sub.Pos()), fmt.Sprintf("a piece of %d is taken off a length shown ≥ %d", piece, lb))
 			return
 		}
